@@ -463,6 +463,45 @@ def r5_proxy(ctx):
     ctx.check(ok_ln, "C15.R5", ln, ln.node, "length of the subset", f"FilteredMappingProxy.__len__ is `{'; '.join(canon_lines(ln.node))[:90]}`: not the number of names it was given", construct="__len__")
 
 
+def r7_definitions_left_untouched(ctx):
+    """The ordering consumes edges from a *copy* of the declared ancestors; the copy is shallow ({n: direct_ancestors[n] ...}), so its values are
+    the caller's own sets: they may be replaced (`d[m] = d[m].difference(..)`) but never changed in place (`d[m] -= ..`, `.discard(..)`) - the
+    closures are read back from them, and the definitions handed in would be emptied."""
+    ctx.rule("C15.R7", "the declared edge sets are never modified in place by the ordering functions", 1)
+    MUT = {"add", "discard", "remove", "pop", "clear", "update", "difference_update", "intersection_update", "symmetric_difference_update", "append", "extend", "insert", "sort"}
+    n = 0
+    for b in ctx.ix.classes[(DAG, CLS)].body:
+        if not isinstance(b, ast.FunctionDef):
+            continue
+        f = ctx.ix.funcs[(DAG, f"{CLS}.{b.name}")]
+        params = {a.arg for a in b.args.args + b.args.kwonlyargs if a.arg not in ("self", "cls")} | {"self.direct_ancestors", "self.variables"}
+        shallow = set(params)
+        for _ in range(3):
+            for st in ast.walk(b):
+                if isinstance(st, ast.Assign) and len(st.targets) == 1 and isinstance(st.targets[0], ast.Name):
+                    v = st.value
+                    vals = [v.value] if isinstance(v, ast.DictComp) else []
+                    if isinstance(v, ast.Call) and U(v.func) in ("dict", "copy.copy") and v.args:
+                        vals = [v.args[0]]
+                    for x in vals:
+                        base = x
+                        while isinstance(base, ast.Subscript):
+                            base = base.value
+                        if U(base) in shallow:
+                            shallow.add(st.targets[0].id)
+        for st in ast.walk(b):
+            tgt = None
+            if isinstance(st, ast.AugAssign) and isinstance(st.target, ast.Subscript) and U(st.target.value) in shallow:
+                tgt = st
+            elif isinstance(st, ast.Call) and isinstance(st.func, ast.Attribute) and st.func.attr in MUT and isinstance(st.func.value, ast.Subscript) and U(st.func.value.value) in shallow:
+                tgt = st
+            if tgt is not None:
+                n += 1
+                ctx.violation("C15.R7", f, tgt, f"`{U(tgt)[:70]}` changes in place a set that still belongs to the caller's definitions (the local mapping is a shallow copy): the declared "
+                              "ancestors are emptied while they are consumed, so whatever is read from them afterwards - and the caller's own objects - are wrong")
+    ctx.ok("C15.R7", (DAG, CLS), None, "no in-place set operation on the declared edges", construct="declared edges")
+
+
 def r6_edges_from_every_definition(ctx):
     """`from_dict` derives the edges from the definitions: every variable, whatever its kind, is asked for the names it depends on."""
     from ..astq import canon_lines
@@ -481,6 +520,7 @@ def r6_edges_from_every_definition(ctx):
 
 def rules(ctx):
     r6_edges_from_every_definition(ctx)
+    r7_definitions_left_untouched(ctx)
     r1_validators(ctx)
     r2_determinism(ctx)
     r3_shipped_graphs(ctx)
